@@ -12,6 +12,7 @@ import ErbiumModel.Judge.C18
 import ErbiumModel.Judge.C17
 import ErbiumModel.Judge.C02
 import ErbiumModel.Judge.C05
+import ErbiumModel.Judge.C19
 /-! Line-protocol driver. stdin: `<suite> <input tokens> => <implementation observation>`;
     stdout: `<correspondence verdict> | <oracle verdict>` per line. -/
 open Erbium Util
@@ -36,6 +37,8 @@ def judge (suite : String) (inp obs : List String) : Verdict :=
   | "leasedb" => Judge.C18.judge inp obs
   | "ra" => Judge.C17.judge inp obs
   | "dhcpcfg" => Judge.C02.judge inp obs
+  | "cfgfield" => Judge.C19.judgeField inp obs
+  | "cfgload" => Judge.C19.judgeLoad inp obs
   | "icmp6" | "lldp" | "dhcpacc" | "toarr" | "dnssafe" | "dhcpsafe" | "ednsacc" => Judge.C05.judge suite inp obs
   | _ => badInput ("unknown-suite:" ++ suite)
 
